@@ -146,7 +146,7 @@ struct Node { field: String, ty: String, leaves: Vec<String>, kids: Vec<Node> }
 
 fn trees() -> Vec<Vec<Node>> {
     let n = |f: &str, t: &str, l: &[&str], k: Vec<Node>| Node { field: f.into(), ty: t.into(), leaves: l.iter().map(|x| x.to_string()).collect(), kids: k };
-    vec![
+    let mut v = vec![
         vec![n("a", "TA", &["a1", "a2"], vec![])],
         vec![n("a", "TA", &["a1"], vec![]), n("b", "TB", &["b1"], vec![])],
         vec![n("a", "TA", &["a1"], vec![n("b", "TB", &["b1", "b2"], vec![])])],
@@ -155,8 +155,15 @@ fn trees() -> Vec<Vec<Node>> {
         vec![n("a", "TA", &[], vec![n("b", "TB", &["b1"], vec![])]), n("ab", "TAB", &["ab1"], vec![])],
         vec![n("a", "TA", &["a1"], vec![n("b", "TB", &[], vec![n("c", "TC", &["c1"], vec![n("d", "TD", &["d1"], vec![])])])])],
         vec![n("a", "TA", &["a1"], vec![n("b", "TB", &["b1"], vec![])]), n("c", "TC", &["c1"], vec![n("b", "TB2", &["cb1"], vec![])])],
-    ]
+    ];
+    if !thorough() { return v; }
+    // thorough tier: wider and deeper trees (7 fields: all 5,040 orders each)
+    v.push(vec![n("a", "TA", &["a1", "a2"], vec![n("b", "TB", &["b1", "b2"], vec![n("c", "TC", &["c1"], vec![])])]), n("ab", "TAB", &["ab1"], vec![])]);
+    v.push(vec![n("a", "TA", &["a1"], vec![n("b", "TB", &["b1"], vec![]), n("c", "TC", &["c1"], vec![n("d", "TD", &["d1"], vec![n("e", "TE", &["e1"], vec![])])])]), n("y", "TY", &["y1"], vec![])]);
+    v.push(vec![n("a", "TA", &[], vec![n("a", "TAA", &["aa1"], vec![n("a", "TAAA", &["aaa1"], vec![])])]), n("aa", "TAA2", &["x1", "x2"], vec![n("a", "TAA2A", &["y1"], vec![])])]);
+    v
 }
+fn thorough() -> bool { std::env::var("STANDIN_TIER").map(|v| v == "thorough").unwrap_or(false) }
 
 // (leaf field name, child path) for every leaf, depth-first in tree order; and (path, type) for every node
 fn flatten(nodes: &[Node], prefix: &str, leaves: &mut Vec<(String, String)>, parents: &mut Vec<(String, String)>) {
@@ -255,7 +262,7 @@ fn c03(r: &mut Rep) {
             let cp = parents.iter().map(|(p, t)| format!("{}: {}", p, t)).collect::<Vec<_>>().join(", ");
             let gh = if ghosts.is_empty() { String::new() } else { format!("#[ghosts({})]\n", ghosts.iter().map(|(p, n)| if p.is_empty() { format!("{}: {{ 1 }}", n) } else { format!("{}@{}: {{ 1 }}", p, n) }).collect::<Vec<_>>().join(", ")) };
             let n_fields = all.len() + if variant == "bare-parent" { 1 } else { 0 };
-            for perm in permutations(n_fields, 720) {
+            for perm in permutations(n_fields, if thorough() { 5040 } else { 720 }) {
                 let fields = perm.iter().map(|&i| if i == all.len() { "#[parent] p: P".to_string() } else { let (l, p) = &all[i]; if p.is_empty() { format!("{}: i32", l) } else { format!("#[child({})] {}: i32", p, l) } }).collect::<Vec<_>>().join(", ");
                 let src = format!("#[map(B)]\n#[into_existing(B)]\n#[child_parents({})]\n{}struct A {{ {} }}", cp, gh, fields);
                 r.cases += 1;
